@@ -60,9 +60,14 @@ def worker_setup():
     import pandas as real_pd
 
     import cirq.study.result as R
+    import cirq.value.digits as DG
+    from symx.proxy import IntShim
 
+    # big_endian_digits_to_int accumulates with int(d): the shim passes symbolic integers through
+    # (isinstance(x, int) stays true for real ints and for SInt)
+    DG.__dict__['int'] = IntShim
     if isinstance(R.pd, types.ModuleType) and getattr(R.pd, '_c18_stub', False):
-        return []
+        return ['cirq.value.digits.int (IntShim)']
 
     class PdStub(types.ModuleType):
         _c18_stub = True
@@ -77,7 +82,7 @@ def worker_setup():
             return real_pd.DataFrame(data, *a, dtype=dtype, **k)
 
     R.pd = PdStub('pandas')
-    return ['cirq.study.result.pd.DataFrame (recorder for symbolic columns; real pandas otherwise)']
+    return ['cirq.study.result.pd.DataFrame (recorder for symbolic columns; real pandas otherwise)', 'cirq.value.digits.int (IntShim: int(x) passes symbolic integers through)']
 
 
 def frame_view(df):
